@@ -39,7 +39,7 @@ M = Monitor(
                             "target=in", "target=out", "under", "exact", "K=none", "K=scalar", "K=vector", "K=matrix",
                             "solver=default", "solver=clarabel"]},
     assumptions=["fit quality: err(X) <= err_opt(BVLS) + l2_eps + 2e-2 (default) / 2e-3 (Clarabel)",
-                 "minimal variance: witness from SLSQP must be feasible for the exact constraints and lower by > 2e-3*(1+var)"],
+                 "minimal variance: witness from SLSQP must meet the error bound shrunk by the first-stage solver accuracy (2e-4 default, 1e-6 Clarabel) and be lower by > 2e-3*(1+var)"],
 )
 
 
@@ -256,7 +256,11 @@ def chk_case(inp, c):
                       "variance is never larger than that of the ordinary fit", mechanism="variance-above-ordinary-fit",
                       row=r, var=var, var_fit=vfit)
         # the L1 window may be incompatible with the error bound: then dreye may legitimately fail; here it returned
-        xw = min_variance(Mt, c0, lbv, ubv, b, w, eo + inp["l2_eps"], evec, L1r, inp["l1_eps"],
+        # the attainable error is itself only known to the procedure up to its first-stage solver accuracy: the witness
+        # must meet the error bound shrunk by that accuracy (it is then feasible for the procedure's own budget as well)
+        acc = 1e-6 if tight else 2e-4
+        budget = max(inp["l2_eps"] - acc, 0.1 * inp["l2_eps"])
+        xw = min_variance(Mt, c0, lbv, ubv, b, w, eo + budget, evec, L1r, inp["l1_eps"],
                           [xo, np.clip(x, lbv, ubv), 0.5 * (lbv + ubv)])
         if xw is None:
             c.note("oracle_no_feasible_witness", True)
